@@ -132,6 +132,16 @@ def aNotB (seedHash : Nat) (a b : Compact σ) (ordered : Bool) : Option (Compact
            ordered := a.ordered || ordered || decide (ents.length ≤ 1), seedHash := seedHash }
 
 
+/-! ### filter (tuple sketches) -/
+
+/-- `compact_tuple_sketch::filter(sketch, predicate)`: entries whose summary satisfies the predicate;
+theta, seed hash and orderedness are kept; empty iff not in estimation mode and nothing is left -/
+def filterSk (pred : σ → Bool) (a : Compact σ) : Compact σ :=
+  { theta := a.theta, ents := a.ents.filter (fun e => pred e.2),
+    isEmpty := !(decide (a.theta < MAX_THETA) && !a.isEmpty) && (a.ents.filter (fun e => pred e.2)).isEmpty,
+    ordered := a.ordered || decide ((a.ents.filter (fun e => pred e.2)).length ≤ 1),
+    seedHash := a.seedHash }
+
 /-- a whole sequence of union updates (`none` as soon as one update throws) -/
 def unionFold (c : Cfg) (pol : σ → σ → σ) (seedHash : Nat) : Union σ → List (Compact σ) → Option (Union σ)
   | u, [] => some u
